@@ -467,6 +467,13 @@ class LoglLin:
     """sum_i k_i * ell_i of named log-likelihood unknowns; multiplying by a temperature gives the log-domain value
     sum_i k_i * (beta * ell_i), each beta*ell_i an Ackermannised atom of `BetaProducts`."""
 
+    # immutable value object (the repaired StateManager deep-copies object arrays; a copy must not duplicate the products table)
+    def __copy__(self):
+        return self
+
+    def __deepcopy__(self, memo):
+        return self
+
     __slots__ = ("bp", "terms")
 
     def __init__(self, bp, terms):
